@@ -269,11 +269,13 @@ impl Request {
     }
 
     pub fn parse_http_request_header_string(header_string: &str) -> Header {
-        let header_parts: Vec<&str> = header_string.split(Header::NAME_VALUE_SEPARATOR).collect();
-        let header_name = StringExt::truncate_new_line_carriage_return(header_parts[0]);
+        let boxed_split = header_string.split_once(Header::NAME_VALUE_SEPARATOR);
+        let mut header_name = StringExt::truncate_new_line_carriage_return(header_string);
         let mut header_value= "".to_string();
-        if header_parts.get(1).is_some() {
-            header_value = StringExt::truncate_new_line_carriage_return(header_parts[1]);
+        if boxed_split.is_some() {
+            let (raw_name, raw_value) = boxed_split.unwrap();
+            header_name = StringExt::truncate_new_line_carriage_return(raw_name);
+            header_value = StringExt::truncate_new_line_carriage_return(raw_value);
         }
 
         Header {
